@@ -557,6 +557,20 @@ def litValue (lexeme : String) : Option Lit :=
            value := ((iv : Rat) + (fv : Rat) / ((10 ^ fl : Nat) : Rat)) * pow10 e }
   | _, _, _ => none
 
+/-! ## String literals
+
+`STRING : '"' ('\\"' | ~('"'))* '"'`; the listener asserts the two delimiters and keeps `text[1:-1]` — the text
+between the delimiters, escape sequences verbatim (no unescaping). -/
+
+/-- value of a `STRING` lexeme (`none`: the listener's assertion fails) -/
+def strLitValue (lexeme : String) : Option String :=
+  match lexeme.toList with
+  | '"' :: rest =>
+    match rest.getLast? with
+    | some '"' => some (String.ofList rest.dropLast)
+    | _ => none
+  | _ => none
+
 /-- the last `k` decimal digits of `v`, most significant first (a zero-padded fraction part) -/
 def padDigits : Nat → Nat → List Char
   | 0, _ => []
